@@ -36,6 +36,14 @@ Torn(p, reader, loc, pcA) == LET PA == Pairs[p].A IN
     ELSE \E i \in 1..(pcA - 1) : PA[i][1] = "W" /\ PA[i][2] = loc
 
 VARIABLES pair, pc, owner, switches, last
+\* Of the many states in which the same foreign read happens only the informative schedules are reported:
+\* A reads a location B owns once B has run to completion (the one-preemption schedule A..B..A); B reads a location
+\* A owns with A stopped right after its write of it or right before its next access of it (the two ends of the window)
+Informative(p, reader, loc) ==
+    LET PA == Pairs[p].A PB == Pairs[p].B IN
+    IF reader = "A" THEN pc["B"] > Len(PB)
+    ELSE \/ (pc["A"] > 1 /\ PA[pc["A"] - 1][1] # "R" /\ PA[pc["A"] - 1][2] = loc)
+         \/ (pc["A"] <= Len(PA) /\ PA[pc["A"]][2] = loc)
 vars == <<pair, pc, owner, switches, last>>
 Init == /\ pair \in 1..Len(Pairs)
         /\ pc = [t \in {"A", "B"} |-> 1]
@@ -47,7 +55,7 @@ Step(t) ==
   /\ LET e == Prog(pair, t)[pc[t]]
          scr == e[2] \in Scratch(pair)
          own == IF e[2] \in DOMAIN owner THEN owner[e[2]] ELSE "none" IN
-     /\ (IF e[1] = "R" /\ scr /\ own # t /\ own # "none"
+     /\ (IF e[1] = "R" /\ scr /\ own # t /\ own # "none" /\ Informative(pair, t, e[2])
          THEN PrintT(<<"FOREIGN", pair, t, pc[t], e[2], pc[IF t = "A" THEN "B" ELSE "A"], Torn(pair, t, e[2], pc["A"])>>) ELSE TRUE)
      \* a fill of a Cache location that the other call also touches: harmless iff the fill is atomic,
      \* which the model cannot know - reported as a candidate window for line-level replay
